@@ -371,14 +371,14 @@ func c17TokenPos(c *Ctx) {
 				return
 			}
 			via := false
-			if call, ok := s.Val.(*ssa.Call); ok && call.Call.StaticCallee() != nil && call.Call.StaticCallee().Name() == "LnCol" && strings.HasSuffix(path(call.Call.Args[0]), ".posCache") {
+			if call, ok := s.Val.(*ssa.Call); ok && call.Call.StaticCallee() != nil && fnName(call.Call.StaticCallee()) == "LnCol" && strings.HasSuffix(path(call.Call.Args[0]), ".posCache") {
 				via = true
 			}
 			if ld, ok := s.Val.(*ssa.UnOp); ok && strings.HasSuffix(path(ld), ".Start") {
 				via = true // copied from a child node's own position (CallExpr.NamePos)
 			}
 			if call, ok := s.Val.(*ssa.Call); ok && call.Call.StaticCallee() != nil {
-				if n := call.Call.StaticCallee().Name(); (n == "StartPos" || n == "NodeStartPos") && len(call.Call.Args) == 1 {
+				if n := fnName(call.Call.StaticCallee()); (n == "StartPos" || n == "NodeStartPos") && len(call.Call.Args) == 1 {
 					if _, isP := rootOf(call.Call.Args[0]).(*ssa.Parameter); isP {
 						via = true // the start of a child node, itself a stored position
 					}
@@ -524,7 +524,7 @@ func c17ErrPos(c *Ctx) {
 				var posArg, fileArg ssa.Value
 				what := cal.Name()
 				switch {
-				case cal.Name() == "NewRunError" && len(call.Call.Args) == 3:
+				case fnName(cal) == "NewRunError" && len(call.Call.Args) == 3:
 					posArg = call.Call.Args[2]
 				case funcIs(cal, pErr, "NewErr"):
 					posArg, fileArg = call.Call.Args[1], call.Call.Args[0]
